@@ -192,8 +192,8 @@ fn write_trace(t: &mut Trace, case: u64, hdr: Value, inputs: &[In], obs: &Obs) {
     starts.sort();
     starts.dedup();
     let tab: Vec<Value> = obs.table.iter().map(|x| {
-        let tick = |us: u64| -> i64 { if us >= epoch() && (us - epoch()) / TICK_US < 0x7fff_ffff { ((us - epoch()) / TICK_US) as i64 } else { -1 } };
-        let ongrid = x.3 >= epoch() && (x.3 - epoch()) % TICK_US == 0 && x.4 >= epoch() && (x.4 - epoch()) % TICK_US == 0;
+        let tick = |us: u64| -> i64 { if us >= epoch() && (us - epoch()) / tick_us() < 0x7fff_ffff { ((us - epoch()) / tick_us()) as i64 } else { -1 } };
+        let ongrid = x.3 >= epoch() && (x.3 - epoch()) % tick_us() == 0 && x.4 >= epoch() && (x.4 - epoch()) % tick_us() == 0;
         json!({"id":rid(x.0, base),"ecu":x.1,"nr":x.2,"start":tick(x.3),"end":tick(x.4),"ongrid":ongrid,
                "start_rank":starts.binary_search(&x.3).unwrap(),"res":rid(x.5, base)})
     }).collect();
@@ -212,9 +212,15 @@ static EPOCH: std::sync::atomic::AtomicU64 = std::sync::atomic::AtomicU64::new(v
 fn epoch() -> u64 {
     EPOCH.load(std::sync::atomic::Ordering::Relaxed)
 }
+/// size of one grid tick: 1 s by default (the scaling of the design model); `--tick-us 1000` records on a 1 ms grid (clean-boot
+/// traces with off-times of a few ms after boots of minutes to hours - the contract is stated in ticks, whatever their size)
+static TICK: std::sync::atomic::AtomicU64 = std::sync::atomic::AtomicU64::new(vh::TICK_US);
+fn tick_us() -> u64 {
+    TICK.load(std::sync::atomic::Ordering::Relaxed)
+}
 
 fn grid_in(ecu: &str, rx_tick: u64, ts_tick: u64, kind: &str) -> In {
-    In { ecu: ecu.to_string(), rx_us: epoch() + rx_tick * TICK_US, ts_dms: (ts_tick * 10_000) as u32, kind: kind.to_string(), boot: 0, index: None }
+    In { ecu: ecu.to_string(), rx_us: epoch() + rx_tick * tick_us(), ts_dms: (ts_tick * (tick_us() / 100)) as u32, kind: kind.to_string(), boot: 0, index: None }
 }
 
 /// compare the observation with the prediction TLC printed for this behaviour (data equality only)
@@ -244,7 +250,7 @@ fn matches_prediction(scn: &Value, obs: &Obs) -> bool {
     }).collect();
     pt.sort();
     let ot: Vec<(u32, String, u32, u64, u64, u32)> = obs.table.iter().map(|x| {
-        (rid(x.0, base), x.1.clone(), x.2, (x.3 - epoch()) / TICK_US, (x.4 - epoch()) / TICK_US, rid(x.5, base))
+        (rid(x.0, base), x.1.clone(), x.2, (x.3 - epoch()) / tick_us(), (x.4 - epoch()) / tick_us(), rid(x.5, base))
     }).collect();
     pt == ot
 }
@@ -403,11 +409,12 @@ impl Gen {
         v
     }
     /// clean-boot trace with ground truth (C08): returns (inputs, boots[{ecu,bt,delay,maxts}])
-    fn clean_stream(&mut self, max_boots: u64, max_per_boot: u64, ne: usize) -> (Vec<In>, Vec<Value>) {
+    fn clean_stream(&mut self, max_boots: u64, max_per_boot: u64, ne: usize, fine: bool) -> (Vec<In>, Vec<Value>) {
         let names = ["A", "B", "C"];
-        let delays = [0u64, 0, 1, 5, 30, 65];
-        let offs = [1u64, 2, 15, 100, 700];
-        let tsv = [0u64, 1, 2, 12, 40, 100, 250];
+        // fine (1 ms ticks): boots of 100 s .. 2 h followed by off-times of 1 .. 20 ms (and a few longer ones), delays up to 65 s
+        let delays: &[u64] = if fine { &[0, 0, 1, 500, 30_000, 65_000] } else { &[0, 0, 1, 5, 30, 65] };
+        let offs: &[u64] = if fine { &[1, 1, 2, 5, 20, 1_000, 20_000] } else { &[1, 2, 15, 100, 700] };
+        let tsv: &[u64] = if fine { &[0, 1, 500, 10_000, 100_000, 300_001, 2_000_000, 7_200_000] } else { &[0, 1, 2, 12, 40, 100, 250] };
         let mut per_ecu: Vec<Vec<In>> = Vec::new();
         let mut boots = Vec::new();
         for e in 0..ne {
@@ -416,9 +423,9 @@ impl Gen {
             let nb = self.rng.range(1, max_boots);
             let mut max_rx_prev = 0;
             for _ in 0..nb {
-                let delay = *self.rng.pick(&delays);
+                let delay = *self.rng.pick(delays);
                 let k = self.rng.range(1, max_per_boot);
-                let mut tss: Vec<u64> = (0..k).map(|_| *self.rng.pick(&tsv)).collect();
+                let mut tss: Vec<u64> = (0..k).map(|_| *self.rng.pick(tsv)).collect();
                 if self.rng.chance(2, 3) { tss.sort(); }
                 // reception-time separation from the previous boot of this ECU
                 let min_ts = *tss.iter().min().unwrap();
@@ -432,7 +439,7 @@ impl Gen {
                     seq.push(i);
                 }
                 max_rx_prev = max_rx_prev.max(bt + delay + maxts);
-                bt = bt + maxts + *self.rng.pick(&offs);
+                bt = bt + maxts + *self.rng.pick(offs);
             }
             per_ecu.push(seq);
         }
@@ -465,6 +472,9 @@ fn msgs_of(inputs: &[In], from: usize) -> Vec<DltMessage> {
 fn main() {
     quiet_panics();
     let a = Args::from_env();
+    if let Some(tu) = a.get("--tick-us") {
+        TICK.store(tu.parse().unwrap(), std::sync::atomic::Ordering::Relaxed);
+    }
     if a.has("--epoch0") {
         EPOCH.store(0, std::sync::atomic::Ordering::Relaxed);
     }
@@ -536,7 +546,7 @@ fn main() {
                     let mut x = last.clone();
                     x.ecu = e.clone();
                     x.kind = "norm".to_string();
-                    x.rx_us = last.rx_us + (k as u64 + 1) * TICK_US;
+                    x.rx_us = last.rx_us + (k as u64 + 1) * tick_us();
                     x.ts_dms = last.ts_dms.saturating_add((k as u32 + 1) * 10_000);
                     x.index = last.index.map(|v| v + k as u32 + 1);
                     all.push(x);
@@ -615,7 +625,7 @@ fn main() {
     // ---- clean-boot traces (C08)
     for i in 0..a.num("--clean", 0) {
         let ne = 1 + (i % 3) as usize;
-        let (inputs, boots) = g.clean_stream(a.num("--max-boots", 4), a.num("--max-per-boot", 5), ne);
+        let (inputs, boots) = g.clean_stream(a.num("--max-boots", 4), a.num("--max-per-boot", 5), ne, a.has("--clean-fine"));
         let obs = run_detector(&[msgs_of(&inputs, 0)], false);
         if obs.panic.is_some() { panics += 1; }
         write_trace(&mut t, case, json!({"kind":"clean","src":"clean","prepop":false,"boots":boots}), &inputs, &obs);
